@@ -1,5 +1,5 @@
 #!/usr/bin/env python3
-"""tools/mutate.py --props C01,C03 [--n 40] [--seed 1] [--out mutation/NAME.jsonl] [--only-file SUBSTR]
+"""tools/mutate.py --props C01,C03 [--n 40] [--seed 1] [--out mutation/NAME.jsonl] [--only-file SUBSTR] [--ops op1,op2]
 
 Mutation adequacy of the tie, mechanically: small operator / constant mutations of the Rust files the given properties are
 anchored in, one at a time.  For every mutant
@@ -77,6 +77,7 @@ def main(argv):
     props = arg("--props").split(",")
     n, seed = int(arg("--n", "40")), int(arg("--seed", "1"))
     only = arg("--only-file")
+    ops_only = set(arg("--ops").split(",")) if arg("--ops") else None
     outp = arg("--out", os.path.join(ROOT, "mutation", "-".join(props) + ".jsonl"))
     os.makedirs(os.path.dirname(outp), exist_ok=True)
     if REPO == "/repo" and os.environ.get("MUTATE_ALLOW_MAIN_REPO") != "1":
@@ -99,7 +100,7 @@ def main(argv):
     for f in sorted(by_file):
         if only and only not in f: continue
         for s in sites(os.path.join(REPO, f)):
-            allsites.append((f,) + s)
+            if ops_only is None or s[1] in ops_only: allsites.append((f,) + s)
     rnd = random.Random(seed)
     rnd.shuffle(allsites)
     done = set()
